@@ -2,21 +2,23 @@
 
     The harness (harness/c06.go) executes one generated block history on four
     instances of the REAL application:
-      A  plain;
+      A  plain (sees nothing but FinalizeBlock + Commit);
       B  re-created from its database (NewCanto on the same DB + LoadLatestVersion)
          at every block boundary;
       C  with gRPC queries, CheckTx (valid and invalid), Simulate and
-         PrepareProposal/ProcessProposal interleaved between blocks;
-      D  a second quiet node (fresh application, no reads at all).
+         PrepareProposal/ProcessProposal interleaved between blocks; the
+         generator's dry runs and the observer's reads also go to this replica;
+      D  a second quiet node (fresh application run afterwards, no reads at all).
     Per block it records, for each replica, the AppHash and the transaction
     results (as indices into the case's table of distinct byte strings: equal
     index <-> equal bytes), the hash of the exported genesis at the heights
-    where an export was taken, and replica A's projection after Commit.
+    where an export was taken, and the projection of the observed replica (C)
+    after Commit -- by the monitors its AppHash is that of the quiet replicas.
 
     MONITORS (on implementation observations only): the four replicas have the
     same AppHash, the same transaction results and the same export at every
-    height.  CORRESPONDENCE: the model's [run_block], started from replica A's
-    own observed pre-state, yields the observed result classes and the
+    height.  CORRESPONDENCE: the model's [run_block], started from the
+    implementation's own observed pre-state, yields the observed result classes and the
     observed projection (epoch records, inflation schedule and minted supply,
     coinswap pools / reserves / balances, csr registry, parameters). *)
 From Coq Require Import ZArith List Bool.
@@ -47,8 +49,8 @@ Record block_obs := mkBO {
   bo_hash : list Z;                 (* AppHash index of replicas A B C D *)
   bo_results : list (list Z);       (* per replica: per transaction, index of (code, codespace, data, gas wanted, gas used) *)
   bo_export : list Z;               (* export hash index of every replica that exported at this height *)
-  bo_codes : list bool;             (* replica A: accepted *)
-  bo_post : cobs                    (* replica A: projection after Commit *)
+  bo_codes : list bool;             (* accepted (identical on all replicas by monitor 11) *)
+  bo_post : cobs                    (* observed replica: projection after Commit *)
 }.
 
 Record chain_case := mkChainCase {
